@@ -287,7 +287,7 @@ impl EventGen for Container {
                     // inner_text implies no processable events; use as-is
                     (inner_events.into(), None)
                 } else {
-                    process_events(inner_events, context)?
+                    context.within_output_element(|context| process_events(inner_events, context))?
                 };
                 events.extend(&evlist);
                 events.push(OutputEvent::End(self.0.name.clone()));
@@ -439,7 +439,9 @@ impl EventGen for GroupElement {
             events.push(OutputEvent::Start(new_el));
 
             if let Some(inner_events) = self.0.inner_events(context) {
-                let (ev_list, bb) = process_events(inner_events, context).inspect_err(|_| {
+                let (ev_list, bb) = context
+                    .within_output_element(|context| process_events(inner_events, context))
+                    .inspect_err(|_| {
                     // don't leave this group's scope behind, e.g. when retried later
                     context.pop_element();
                 })?;
